@@ -140,9 +140,24 @@ ACTOR_KINDS = ["cancel", "add_cb", "add_cb_nested", "add_cb_raising", "result", 
                "as_completed", "state"]
 
 
-def make_prog(subject, variant, actors, order="completer-first"):
+def input_names(setup):
+    """The futures the subject depends on and user code can reach: the source futures of an expression."""
+    out = []
+    for op in setup:
+        if op[0] == "expr":
+            txt = repr(op[2])
+            out += [n for n in ("a", "b") if "['src', '%s']" % n in txt]
+    # (the futures inside an executor stack are not reachable by user code, so only expressions have inputs in this sense)
+    return out
+
+
+def make_prog(subject, variant, actors, order="completer-first", reenter=False):
     v = subjects()[subject]["variants"][variant]
     v = dict(v, setup=list(v["setup"]) + [["sleep", 0.01], ["add_cb", "S", "probe"]])
+    if reenter:
+        # user code re-enters the subject: a done-callback on each future the subject depends on calls S.cancel() - it runs
+        # inside S.cancel() when that cancels the input, or inside the chain of calls that is completing S
+        v["setup"] = v["setup"] + [["add_cb", n, "re_" + n, ["op", ["cancel", "S"]]] for n in input_names(v["setup"])]
     threads = [list(v["complete"])]
     k = 0
     for acts in actors:
@@ -160,7 +175,7 @@ def make_prog(subject, variant, actors, order="completer-first"):
 
 
 def evaluate(case):
-    prog = make_prog(case["subject"], case["variant"], case["actors"], case.get("order", "completer-first"))
+    prog = make_prog(case["subject"], case["variant"], case["actors"], case.get("order", "completer-first"), case.get("reenter", False))
     completer = prog.pop("completer")
     s, w = progs.run_case({"prog": prog, "tape": case.get("tape", []), "clock": case.get("clock", "exact"), "max_steps": 80000, "max_vtime": 500})
     info = {"end": s.end_reason, "steps": s.steps, "preemptions": s.preemptions}
@@ -315,6 +330,9 @@ def sweep_cases():
             for a in ("cancel", "add_cb"):
                 out.append({"subject": subj, "variant": variant, "actors": [[a, "state"]], "order": "actors-first"})
             out.append({"subject": subj, "variant": variant, "actors": [["cancel"], ["add_cb", "wait_exc"]]})
+            if input_names(d["variants"][variant]["setup"]):
+                for a in ("cancel", "add_cb"):
+                    out.append({"subject": subj, "variant": variant, "actors": [[a, "state"]], "reenter": True})
     return out
 
 
@@ -344,7 +362,7 @@ def case_strategy():
         actors = [draw(st.lists(st.sampled_from(ACTOR_KINDS), min_size=1, max_size=4)) for _ in range(nact)]
         return {"subject": subj, "variant": variant, "actors": actors, "tape": draw(gen.tapes(8)),
                 "order": draw(st.sampled_from(["completer-first", "actors-first"])),
-                "clock": draw(st.sampled_from(["exact", "exact", "preempt"]))}
+                "clock": draw(st.sampled_from(["exact", "exact", "preempt"])), "reenter": draw(st.integers(0, 3)) == 0}
 
     return cases()
 
